@@ -2,6 +2,7 @@
 import ast
 from ..core import Result
 from ..pm import AnalysisError, unparse
+from ..match import Code
 from ..paths import paths, annotate, callee_names, call_attr
 from ..rat import (Ev, Rat, Sym, Poly, fn_eval, rat_eq, Inconclusive, ONE,
                    ZERO, const_of)
@@ -325,7 +326,7 @@ def pipeline(ctx):
     # path length: opd[-1,:] - distance
     pl = None
     for m in c.methods.values():
-        src = unparse(m.node, 3000)
+        src = Code(P, m)
         if 'surface_group.opd[-1, :]' in src:
             pl = m
     if pl is None:
@@ -434,7 +435,7 @@ def consumers(ctx):
     for q, src in items:
         f = P.func(q)
         res.saw(f)
-        s = unparse(f.node, 3000)
+        s = Code(P, f)
         if f'np.sqrt(np.mean({src} ** 2))' in s:
             res.ok(f'{q}: sqrt(mean({src}^2))')
         else:
@@ -443,7 +444,7 @@ def consumers(ctx):
                                  construct=q))
     f = P.func('RayOperand.OPD_difference')
     res.saw(f)
-    s = unparse(f.node, 4000)
+    s = Code(P, f)
     if 'wf.data[0][0][0] - np.mean(wf.data[0][0][0])' in s and \
             'Wavefront(optic, [(Hx, Hy)], [wavelength], num_rays, distribution)'\
             in s and 'np.mean(np.abs(delta))' in s:
@@ -455,7 +456,7 @@ def consumers(ctx):
                              'requested field / wavelength',
                              construct='OPD_difference'))
     f = P.func('OPDFan.view')
-    s = unparse(f.node, 6000)
+    s = Code(P, f)
     if 'self.data[i][j][0][self.num_rays:]' in s and \
             'self.data[i][j][0][:self.num_rays]' in s:
         res.ok('OPDFan reads the two halves of the cross distribution')
@@ -467,7 +468,7 @@ def consumers(ctx):
                              'OPD fan does not sample the pupil axes',
                              construct='OPDFan distribution'))
     f = P.func('OPD.__init__')
-    s = unparse(f.node, 2000)
+    s = Code(P, f)
     if 'fields=[field]' in s and 'wavelengths=[wavelength]' in s:
         res.ok('OPD map: the requested field and wavelength')
     else:
@@ -475,7 +476,7 @@ def consumers(ctx):
                              'OPD map is not for the requested field / '
                              'wavelength', construct='OPD.__init__'))
     f = P.func('ZernikeOPD.__init__')
-    s = unparse(f.node, 2000)
+    s = Code(P, f)
     if 'x = self.distribution.x' in s and 'y = self.distribution.y' in s and \
             'z = self.data[0][0][0]' in s and \
             'ZernikeFit.__init__(self, x, y, z, zernike_type, num_terms)' in s:
